@@ -391,13 +391,22 @@ def exactB (log : List Event) : Bool :=
     | .fired _ t b cs => decide (t = b + cs * 10000)
     | _ => true
 
+/-- outside critical sections: every watchdog whose deadline has passed has fired exactly at its
+    deadline or has been destroyed -/
+def promptB (σ : St) : Bool :=
+  σ.log.all fun
+    | .born id b cs =>
+      decide (σ.now < b + cs * 10000) || σ.log.contains (.fired id (b + cs * 10000) b cs)
+        || σ.log.any (Event.isDestroyedOf id)
+    | _ => true
+
 /-! ## The weight watcher: `Threshold_Watcher<Weightwatch_Traits>` -/
 
 def W64 : Nat := 18446744073709551616      -- 2^64
 def H63 : Nat := 9223372036854775808       -- 2^63
 
 /-- `Weightwatch_Traits::less_than(a, b)`: `b - a < 2^63` in `unsigned long long` arithmetic.
-    With `flip` the operands are exchanged (mutant used in tests only). -/
+    (`a`, `b` < 2^64.) -/
 def wLess (a b : Nat) : Bool := decide ((b + W64 - a % W64) % W64 < H63)
 
 structure WEv where
@@ -453,11 +462,9 @@ inductive WOp
   | create (id : Nat) (delta : Nat) -- Threshold_Watcher ctor; delta < 2^64
   | destroy (id : Nat)
   | check                           -- maybe_abandon()
-  | setWeight (w : Nat)             -- initial value of the global counter (test set-up)
 deriving Repr, DecidableEq, Inhabited
 
 def wExec (σ : WSt) : WOp → WSt
-  | .setWeight w => { σ with weight := w % W64, gWeight := w % W64, gLast := w % W64 }
   | .add d => { σ with weight := (σ.weight + d) % W64, gWeight := σ.gWeight + d }
   | .create id delta =>
     if id ∈ σ.used then σ else
@@ -486,6 +493,9 @@ def wExec (σ : WSt) : WOp → WSt
                log := .check σ.gWeight ::
                  ((due.map fun e => WEvent.fired e.id e.gThr σ.gLast σ.gWeight).reverse ++ σ.log) }
 
-def wRun (ops : List WOp) : WSt := ops.foldl wExec {}
+/-- initial state: the global counter `Weightwatch_Traits::weight` holds `w0` -/
+def wInit (w0 : Nat) : WSt := { weight := w0 % W64, gWeight := w0 % W64, gLast := w0 % W64 }
+
+def wRun (w0 : Nat) (ops : List WOp) : WSt := ops.foldl wExec (wInit w0)
 
 end PPLV.Watchdog
